@@ -123,8 +123,15 @@ func (tds *Conn) NewChannel() (*Channel, error) {
 	setup.Header.Length = PacketHeaderSize
 	setup.Data = nil
 
+	// The channel is registered already and can be closed through
+	// Conn.Close, which uses the transmit state as well. The lock is
+	// only held for sending - Close must be able to interrupt the wait
+	// for the acknowledgement.
+	tdsChan.txLock.Lock()
 	tdsChan.CurrentHeaderType = TDS_BUF_SETUP
-	if err := tdsChan.sendPacket(setup); err != nil {
+	err = tdsChan.sendPacket(setup)
+	tdsChan.txLock.Unlock()
+	if err != nil {
 		return nil, fmt.Errorf("error sending setup for channel %d: %w",
 			tdsChan.channelId, err)
 	}
